@@ -75,6 +75,34 @@ theorem integrate_is_total (rate dts : List Rat) (h : dts.length = rate.length) 
   simp only [valid, h, beq_self_eq_true, if_true, TimeBase.expand]
   rw [dot_eq_rsum_zipWith, rsum_eq_sum]
 
+theorem dot_replicate (r : Rat) (dts : List Rat) : dot (List.replicate dts.length r) dts = r * rsum dts := by
+  induction dts with
+  | nil => simp [dot, rsum]
+  | cons d ds ih => simp only [List.length_cons, List.replicate_succ, dot, ih, rsum_cons]; ring
+
+/-- Where the lengths agree nothing changes … -/
+theorem integrateC_eq (rate dts : List Rat) (h : dts.length = rate.length) :
+    integrateC rate (.series dts) = integrate rate (.series dts) := by
+  match rate, h with
+  | [r], h =>
+    have h1 : dts.length = 1 := by simpa using h
+    simp [integrateC, h1]
+  | [], _ => rfl
+  | _ :: _ :: _, _ => rfl
+
+/-- … and a single value integrates like the constant series written out (D87): the two representations of
+a constant load or power give the same energy. -/
+theorem integrateC_constant (r : Rat) (dts : List Rat) (h : 1 < dts.length) :
+    integrateC [r] (.series dts) = integrate (List.replicate dts.length r) (.series dts) := by
+  unfold integrateC integrate
+  simp only [valid, List.length_replicate, beq_self_eq_true, if_true, TimeBase.expand]
+  rw [if_neg (by omega), dot_replicate]
+
+/-- As found, a single value next to several intervals was refused (and the results then dropped the energy). -/
+theorem integrate_legacy_refuses_constant :
+    integrate [100] (.series [10, 20, 30]) = none ∧ integrateC [100] (.series [10, 20, 30]) = some 6000 := by
+  decide +kernel
+
 /-- Running hours are additive over a split … -/
 theorem running_hours_append (p q d e : List Rat) (h : p.length = d.length) :
     runningHours (p ++ q) (d ++ e) = runningHours p d + runningHours q e := by
